@@ -188,6 +188,37 @@ class AdfOracle:
         self.names = names
         self.n = len(names)
         self.conds = [conds.get(nm, ("bot",)) for nm in names]
+        # truth tables as bit sets over the 2^n total assignments (bit x: statement i is true iff x >> i & 1)
+        self.tt = None
+        if self.n <= 12:
+            size = 1 << self.n
+            self.full = (1 << size) - 1
+            self.varmask = []
+            for i in range(self.n):
+                m = 0
+                for x in range(size):
+                    if x >> i & 1:
+                        m |= 1 << x
+                self.varmask.append(m)
+            self.tt = []
+            for f in self.conds:
+                t = 0
+                for x in range(size):
+                    if eval_formula(f, {self.names[i]: bool(x >> i & 1) for i in range(self.n)}):
+                        t |= 1 << x
+                self.tt.append(t)
+
+    def cons3_tt(self, k, v, force_false=None):
+        """the same as cons3 for condition number k, on the truth tables"""
+        m = self.full
+        ff = force_false or ()
+        for i in range(self.n):
+            if i in ff or v[i] == "F":
+                m &= ~self.varmask[i]
+            elif v[i] == "T":
+                m &= self.varmask[i]
+        t = self.tt[k] & m
+        return "F" if t == 0 else ("T" if t == m else "u")
 
     def cons3(self, f, v, force_false=None):
         """three-valued consequence of formula f under interpretation v ('T','F','u' per position)"""
@@ -211,6 +242,11 @@ class AdfOracle:
         return "T" if seen_t else "F"
 
     def gamma(self, v, force_false=None):
+        if self.tt is not None:
+            return "".join(self.cons3_tt(k, v, force_false) for k in range(self.n))
+        return "".join(self.cons3(f, v, force_false) for f in self.conds)
+
+    def gamma_slow(self, v, force_false=None):
         return "".join(self.cons3(f, v, force_false) for f in self.conds)
 
     def grounded(self, force_false=None):
